@@ -661,7 +661,7 @@ func treeMutate(class string, holder *node, rng *vh.Rng, kk int, p *pool, other 
 			return "", "", false
 		}
 		u := s.get().s
-		if len(u) != 36 {
+		if len(u) != 36 || len(strings.ReplaceAll(u, "-", "")) != 32 {
 			u = "01234567-89ab-cdef-0123-456789abcdef"
 		}
 		nodash := strings.ReplaceAll(u, "-", "")
